@@ -4,6 +4,7 @@ package rapid
 // and a property function that interprets a symbolic opcode program.
 
 import (
+	"context"
 	"fmt"
 	"runtime"
 	"strings"
@@ -120,6 +121,7 @@ const (
 	opDrawRune         // RuneFrom(3 runes of different encoded length).Draw: loaded die + index draw
 	opHelperA          // Fatalf at the first of two sites inside ONE helper function that calls t.Helper()
 	opHelperB          // Fatalf at the second site of the same helper (same caller line)
+	opPanicVal         // panic whose VALUE (and so its message) depends on the last drawn bool, at one site
 	opCount
 )
 
@@ -151,6 +153,11 @@ type vInv struct {
 	overlap  bool // another invocation began before this one's cleanups finished
 	rawPanics    int // panic(x) / run-time panics raised by user code (not through T)
 	panicNil     int // panic(nil) raised by user code
+	cbReg        int  // cleanups registered inside Custom generator functions
+	cbRun        int  // ... of which have run
+	customCalls  int  // invocations of a Custom generator function (every try counts)
+	customLeak   bool // a Custom function was entered while cleanups of an earlier call were still pending
+	customCtxBad bool // a Custom call saw the context of an earlier call, or that context was still live
 	cleanupSkips int // t.Skip called from inside a cleanup callback
 	cleanupInvalid int // cleanup callbacks that ended by raising invalid data (skip, overrun, ...)
 }
@@ -294,6 +301,16 @@ func (p *vProg) execCB(t *T, ops []uint8, inv *vInv, inCallback bool, inCleanup 
 			inv.signals++
 			inv.fatalAt = 13 + int(op-opHelperA)
 			helperFail(t, op == opHelperB)
+		case opPanicVal:
+			inv.signals++
+			inv.rawPanics++
+			inv.fatalAt = 15
+			if lastBit {
+				inv.failMsg = "index out of range [1] with length 1"
+			} else {
+				inv.failMsg = "index out of range [0] with length 0"
+			}
+			panic(inv.failMsg)
 		case opErrorEmpty:
 			inv.signals++
 			inv.nonFatal++
@@ -397,7 +414,14 @@ func (p *vProg) execCB(t *T, ops []uint8, inv *vInv, inCallback bool, inCleanup 
 			if inCleanup && inCallback && len(ops) == len(p.sub2) && len(p.sub2) > 0 && &ops[0] == &p.sub2[0] {
 				sub = nil // third level: an empty cleanup
 			}
+			fromCustom := inCallback && !inCleanup
+			if fromCustom {
+				inv.cbReg++
+			}
 			t.Cleanup(func() {
+				if fromCustom {
+					inv.cbRun++
+				}
 				inv.cleanRun = append(inv.cleanRun, id)
 				defer func() {
 					if r := recover(); r != nil {
@@ -410,7 +434,19 @@ func (p *vProg) execCB(t *T, ops []uint8, inv *vInv, inCallback bool, inCleanup 
 				p.execCB(t, sub, inv, true, true)
 			})
 		case opCustom:
+			var prevCtx context.Context
 			v := Custom(func(ct *T) int {
+				// every call of the generator function (also a retry after a skip) is its own
+				// invocation: the cleanups of the previous call have run, its context is cancelled
+				inv.customCalls++
+				if inv.cbReg != inv.cbRun {
+					inv.customLeak = true
+				}
+				ctx := ct.Context()
+				if prevCtx != nil && (ctx == prevCtx || prevCtx.Err() == nil) {
+					inv.customCtxBad = true
+				}
+				prevCtx = ctx
 				p.exec(ct, p.sub, inv, true)
 				if Bool().Draw(ct, "cb") {
 					return 1
